@@ -289,11 +289,11 @@ def run(ctx):
         # (a monitor that has stopped consuming keeps the writer waiting legitimately — "once the readers have consumed enough" —
         # which is C07's known finding about acquire_stop, not a C03 matter)
         rel = lambda p: p["kind"] in ("crash", "diff") or (("never-returns" in p["msg"] or "never-returns" in p["sig"]) and "stalled-monitor" not in p["sig"])
-        rtx.explore(ctx, ex, ["abort", "abortmon", "stofault", "abort"], 20 if thorough else 4, 10 if thorough else 5, rel)
+        rtx.explore(ctx, ex, ["abort", "abortmon", "stofault", "avgabortmon"], 20 if thorough else 4, 10 if thorough else 5, rel)
         ctx.cov.update(keep)
         ctx.cov["pipeline_runs"] = {"runs": ex.stats["runs"], "per_class": ex.stats["per_class"], "ends": ex.stats["ends"],
                                     "cosim_runs": ex.stats["cosim_runs"], "cosim_agree": ex.stats["cosim_ok"], "decisions_compared": ex.stats["decisions"]}
-        ctx.cov["rule"] += ("; pipeline level: classes abort/abortmon/stofault of checks/rtx.py (source asleep on a full ring when abort, a "
+        ctx.cov["rule"] += ("; pipeline level: classes abort/abortmon/stofault/avgabortmon of checks/rtx.py (source asleep on a full ring when abort, a "
                             "storage failure or stop arrives) with the HANG/DEADLOCK/STEP-LIMIT oracle and co-simulation against M1")
 
 
